@@ -60,6 +60,8 @@ def instances(tier):
                     if quick_skip(tier, cls.__name__, off, stg):
                         continue
                     out.append(dict(id="%s-1-fault+%d" % (cls.__name__, off), cls=cls.__name__, shape=[1], mode="explicit_fault", fault_offset=off, budget=b))
+                if tier != "quick" or cls.__name__ in ("RK45CKSolver", "DOPRI45", "RK4Solver"):
+                    out.append(dict(id="%s-1-rhs-reuses-its-output-buffer" % cls.__name__, cls=cls.__name__, shape=[1], mode="explicit", rhs_reuses_buffer=True, budget=b))
                 for off in ([1] if tier == "quick" else sorted(set([0, 1, stg - 1, stg]))):
                     out.append(dict(id="%s-1-nonfinite+%d" % (cls.__name__, off), cls=cls.__name__, shape=[1], mode="explicit_nonfinite", fault_offset=off, budget=b))
     # bit-precise corner (QF_FP witness -> real float64 step): ill-scaled state, the increment must not inherit the rounding of the state
@@ -191,6 +193,7 @@ def scenario(c, inst):
         B = np.asarray(cls.tableau_final, dtype=np.float64)
         s = A.shape[0]
         rhs = FreshRhs(c, shape, name="f", mode="uf")
+        rhs.reuse_buffer = bool(inst.get("rhs_reuses_buffer"))      # a legitimate rhs program: np.matmul(A, y, out=self.out); return self.out
         probe = FreshRhs(c, shape, name="f", mode="uf")
         log = []
         if integ.is_adaptive:
